@@ -1,5 +1,5 @@
 (* C02 — Multi-value options consume the right tokens and keep every value in order. *)
-From GO Require Import Base.Str Model.Tokenizer Model.Option Model.Tree Model.Parse.
+From GO Require Import Base.Str Base.Utf8 Model.Tokenizer Model.Option Model.Tree Model.Parse.
 From GO Require Import Proofs.TokLemmas Proofs.ParseLemmas Proofs.Match Proofs.Scalar Proofs.Multi.
 
 (* The option token: the attached value (if any) is saved, the option then has
@@ -135,7 +135,7 @@ Theorem C02_map_entry :
   forall pf lower sp m c u e k v,
     os_kind sp = KMap -> valid_ok sp [e] = true -> split_first 61 e = Some (k, v) ->
     save pf lower sp (mkState (VMap m) c u) [e] =
-      Ok (mkState (VMap (map_set (if lower then to_lower k else k) v m)) c u).
+      Ok (mkState (VMap (map_set (if lower then go_lower k else k) v m)) c u).
 Proof. exact save_map_one. Qed.
 Print Assumptions C02_map_entry.
 
